@@ -42,7 +42,23 @@ EXTRA_TRUSTED = ["the field tuple attr.fields(cls), the MRO __slots__ and __dict
 ASSUMPTIONS = ["user callables are symbolic: they record their arguments and return a fresh term; they do not "
                "mutate the instance", "linear single-inheritance chains; plain classes in between define nothing"]
 
+EXTRA_TRUSTED = EXTRA_TRUSTED + [
+    "harness/translate_c06.py (fail-closed Python-subset -> Gallina translator for setters.pipe/frozen/validate/"
+    "convert, the sa_attrs loop and the __setattr__ closure of _ClassBuilder.add_setattr) and the hand-written "
+    "meaning of its primitives in coq/theories/C06/TieBase.v (calling a validator / converter object / hook, "
+    "_OBJ_SETATTR, Attribute reads, truthiness, `is`, `or`, dict item assignment, KeyError on lookup)"]
+
 NF = "nf"          # a name that is never a field
+
+
+def pre_build():
+    from . import translate_c06
+    translate_c06.regenerate()
+
+
+def translated_tie():
+    from . import translate_c06
+    return translate_c06.regenerate(), "theories/C06/Tie.vo"
 
 
 # --------------------------------------------------------------------------------------
